@@ -500,25 +500,13 @@ class AtLeast(puan.Proposition):
                         any,
                         functools.partial(
                             map,
-                            lambda i: i >= 2,
-                        ),
-                        dict.values,
-                        Counter,
-                        itertools.chain.from_iterable,
-                        functools.partial(
-                            map, 
-                            lambda x: list(
-                                map(
-                                    lambda y: f"{x.id}-{y.id}",
-                                    x.propositions
-                                )
-                            )
+                            lambda x: len(x.propositions) != len(set(map(operator.attrgetter("id"), x.propositions))),
                         ),
                         functools.partial(
                             filter,
                             lambda x: not issubclass(x.__class__, puan.variable)
                         ),
-                        operator.methodcaller("flatten")
+                        operator.methodcaller("_occurrences")
                     )
                 )
             )(self)
